@@ -24,6 +24,7 @@ func checkC10(c *Ctx, r *Report) {
 	c10a(c, r)
 	c10b(c, r)
 	c10c(c, r)
+	c10d(c, r)
 }
 
 func kindConsts(c *Ctx) map[string]string {
@@ -432,6 +433,7 @@ func c10b(c *Ctx, r *Report) {
 	}
 	// builder holes: CodeHeader ← GetCode(), UnionPart ← GetUion() (Go) and CodeLast ← GetCodeCopy(); checked on shapes
 	st := c.GetStaged()
+	stagedErrors(r, "C10", st)
 	for _, sc := range st.Configs {
 		if sc.V.Http || sc.V.Name != "go/global/packed" && sc.V.Name != "go/object/dense" {
 			continue
@@ -649,4 +651,189 @@ func paramArgsAppendOnly(c *Ctx, fn *FuncRef, p types.Object) bool {
 		})
 	}
 	return ok && n > 0
+}
+
+// C10.d — token boundaries: when a lexer state hands control back to rootState, every rune it consumed has been
+// accounted for (emitted as a token or dropped with ignore). Otherwise the text of skipped material (a comment,
+// blanks) leaks into the next token and the layout changes the grammar.
+func c10d(c *Ctx, r *Report) {
+	const clause = "C10.d"
+	n := 0
+	for _, f := range c.AllFuncs() {
+		if !strings.HasPrefix(f.Name, "Parser.") || f.Decl.Recv != nil || f.Decl.Type.Results == nil || len(f.Decl.Type.Results.List) != 1 {
+			continue
+		}
+		if exprString(f.Decl.Type.Results.List[0].Type) != "stateFn" {
+			continue
+		}
+		info := f.Pkg.TypesInfo
+		fc := buildCFG(info, f.Decl.Body)
+		accounted := func(nd ast.Node) bool {
+			ok := false
+			ast.Inspect(nd, func(m ast.Node) bool {
+				switch x := m.(type) {
+				case *ast.FuncLit:
+					return false
+				case *ast.CallExpr:
+					if fn := callee(info, x); fn != nil {
+						switch fn.Name() {
+						case "emit", "emitValue", "emitEOF", "ignore", "error":
+							ok = true
+						}
+					}
+				case *ast.ReturnStmt:
+					// handing over to another state with text pending is that state's business; nil stops the machine
+					if len(x.Results) == 1 {
+						if id, isId := unparen(x.Results[0]).(*ast.Ident); isId && id.Name != "rootState" {
+							ok = true
+						}
+					}
+				}
+				return true
+			})
+			return ok
+		}
+		var nexts []*ast.CallExpr
+		ast.Inspect(f.Decl.Body, func(m ast.Node) bool {
+			if call, ok := m.(*ast.CallExpr); ok {
+				if fn := callee(info, call); fn != nil && fn.Name() == "next" {
+					nexts = append(nexts, call)
+				}
+			}
+			return true
+		})
+		if len(nexts) == 0 {
+			continue
+		}
+		n++
+		bad := ""
+		for _, nx := range nexts {
+			if !fc.EveryPathToExitPasses(nx, accounted) {
+				bad = c.pos(nx.Pos())
+			}
+		}
+		r.Check(bad == "", clause, "R2 TOKEN-BOUNDARY", f.Name+"/consumed-text-accounted-before-rootState", c.pos(f.Decl.Pos()),
+			fmt.Sprintf("every path from each of the %d next() calls back to rootState passes emit/emitValue/ignore (or hands over to another state, or stops with an error)", len(nexts)),
+			"a rune consumed by next() at "+bad+" can reach `return rootState` without being emitted or dropped with ignore(): the skipped text (e.g. the end of a /* */ comment) is prepended to the next token, so layout changes token values, identifiers and action bodies")
+	}
+	if n < 8 {
+		r.Undecided(clause, "R2 TOKEN-BOUNDARY", "Parser/lexer-state-functions", "Parser/Lex.go", fmt.Sprintf("only %d state functions with next() calls found (10 confirmed by hand)", n))
+	}
+	// literal naming: wherever a token that may be a character literal becomes a symbol NAME, the literal's
+	// temporary name (genTempName) is used — at all sites, so the same literal is one symbol everywhere
+	for _, fn := range []string{"parseTokendef", "parsePrecList", "parseRule"} {
+		f := c.need(r, clause, "Parser", "parser", fn)
+		if f == nil {
+			continue
+		}
+		c10LiteralNames(c, r, f, clause)
+	}
+}
+
+// c10LiteralNames: in f, every store of a name (fields Name, IdName, Element, PrecSym, or a local that flows into
+// them) on a path where the current token is a character literal uses genTempName(value); on a path where it is an
+// identifier it uses the value itself.
+func c10LiteralNames(c *Ctx, r *Report, f *FuncRef, clause string) {
+	info := f.Pkg.TypesInfo
+	// candidate statement lists: bodies of if/else chains and case clauses that test the token kind
+	type site struct {
+		stmts []ast.Stmt
+		pos   token.Pos
+		what  string
+	}
+	var sites []site
+	ast.Inspect(f.Decl.Body, func(n ast.Node) bool {
+		switch x := n.(type) {
+		case *ast.IfStmt:
+			mentions := false
+			ast.Inspect(x.Cond, func(m ast.Node) bool {
+				if call, ok := m.(*ast.CallExpr); ok && len(call.Args) == 1 {
+					if s, ok := constString(info, call.Args[0]); ok && (s == "Charater" || s == "Identifier") {
+						mentions = true
+					}
+				}
+				return true
+			})
+			if mentions {
+				sites = append(sites, site{[]ast.Stmt{x}, x.Pos(), "if"})
+				return false
+			}
+		case *ast.CaseClause:
+			for _, e := range x.List {
+				if s, ok := constString(info, e); ok && s == "Charater" {
+					sites = append(sites, site{x.Body, x.Pos(), "case Charater"})
+				}
+				if s, ok := constString(info, e); ok && s == "PrecDirective" {
+					// the %prec operand is read after one more next(): evaluate the clause body under both kinds
+					sites = append(sites, site{x.Body, x.Pos(), "case PrecDirective"})
+				}
+			}
+		}
+		return true
+	})
+	nameFields := map[string]bool{"Name": true, "IdName": true, "Element": true, "PrecSym": true}
+	checked := 0
+	bad := ""
+	for _, st := range sites {
+		pe := newPathEnum(info)
+		paths, err := pe.Enumerate(st.stmts)
+		if err != nil {
+			continue
+		}
+		for _, kind := range []string{"Charater", "Identifier"} {
+			if st.what == "case Charater" && kind == "Identifier" {
+				continue
+			}
+			val := kindValuation(c, kind, nil)
+			for _, p := range selectPaths(paths, val) {
+				var names []*Term
+				for _, e := range p.Effects {
+					if e.Kind == "store" && e.LHS.Op == "field" && nameFields[e.LHS.Name] {
+						names = append(names, e.Term)
+					}
+					// composite literals stored or appended
+					collectNameFields(e.Term, nameFields, &names)
+				}
+				for _, t := range p.Env {
+					collectNameFields(t, nameFields, &names)
+				}
+				for _, t := range names {
+					s := t.String()
+					if !strings.Contains(s, ".current.Value") {
+						continue
+					}
+					checked++
+					wrapped := strings.Contains(s, "genTempName(")
+					if kind == "Charater" && !wrapped {
+						bad = fmt.Sprintf("at %s a character-literal token's text becomes a symbol name without genTempName (%s): the literal would be looked up under a different name than the one it was declared with, so its %%prec / rule occurrence refers to no symbol", c.pos(st.pos), s)
+					}
+					if kind == "Identifier" && wrapped {
+						bad = fmt.Sprintf("at %s an identifier's name is wrapped in genTempName (%s)", c.pos(st.pos), s)
+					}
+				}
+			}
+		}
+	}
+	r.Check(bad == "" && checked > 0, clause, "R10 SIBLING-SITES", f.Name+"/literal-names-use-genTempName", c.pos(f.Decl.Pos()),
+		fmt.Sprintf("%d name stores: a character literal is named genTempName(text) and an identifier by its own text at every site", checked),
+		map[bool]string{true: bad, false: "no name store under a token-kind test was found"}[bad != ""])
+}
+
+func collectNameFields(t *Term, nameFields map[string]bool, out *[]*Term) {
+	if t == nil {
+		return
+	}
+	if t.Op == "composite" {
+		for k, v := range t.Fields {
+			if nameFields[k] {
+				*out = append(*out, v)
+			}
+		}
+	}
+	for _, a := range t.Args {
+		collectNameFields(a, nameFields, out)
+	}
+	for _, v := range t.Fields {
+		collectNameFields(v, nameFields, out)
+	}
 }
